@@ -90,7 +90,8 @@ int main(int argc, char** argv) {
 
   std::string extra_json;
   if (mode == "enum") {
-    special::enumerate(prop, tier, worker, nworkers, seed, one, extra_json);
+    special::enumerate(prop, tier, worker, nworkers, seed, one, extra_json, &ps, &st);
+    if (prop == "C16") st.exhaustive = true;
   } else {
     // RC_PARAMS (seed, max_success, max_size) is set by the driver
     // shrinking is rapidcheck's, but bounded: after the budget every further candidate "passes", which
